@@ -2,6 +2,7 @@ package main
 
 import (
 	"fmt"
+	"go/token"
 	"go/types"
 	"sort"
 	"strings"
@@ -138,6 +139,11 @@ func excludes(a, b Access) (string, bool) {
 }
 
 func runC09(p *Prog, r *Report) {
+	// R14: the header rewriter shared by all requests of a forwarder is not written on the request path
+	if hr := p.Named("forward", "HeaderRewriter"); hr != nil {
+		c09Races(p, r, "C09.R14", []*types.Named{hr})
+		r.Pass("C09.R14", "forward.HeaderRewriter: analysed for unsynchronised state", "-", "conflicting accesses reachable from its methods were enumerated")
+	}
 	// R11: a connection count is given back on every exit, including a panicking handler (shared with C04.R3); R12: pool URL objects are not handed to code running outside the pool's lock (shared with C02.R5)
 	r.Borrow(p, runC04, map[string]string{"C04.R3": "C09.R11"}, nil)
 	r.Borrow(p, runC02, map[string]string{"C02.R5": "C09.R12"}, nil)
@@ -156,6 +162,7 @@ func runC09(p *Prog, r *Report) {
 	limiterSerial(p, r, "C09.R6") // no update of a source's buckets is lost: get-or-create is one critical section
 	r.Floor("C09.R5", checkSnapshots(p, r, "C09.R5", nil), 4, "snapshot methods (Clone / Export) in memmetrics")
 	r.Floor("C09.R5", checkNoLiveHandOut(p, r, "C09.R5"), 3, "exported memmetrics methods returning a statistics object")
+	r.Floor("C09.R13", c09NoConfigHeaderAlias(p, r, "C09.R13"), 1, "stores into a request's Header field")
 }
 
 func lockOpsOf(p *Prog, roots []*types.Named) int {
@@ -395,6 +402,7 @@ func modeWord(m string) string {
 
 func mutantsC09() []Mutant {
 	return []Mutant{
+		{Name: "webhook-aliases-configured-headers", File: "cbreaker/effect.go", Old: "\t\tutils.CopyHeaders(r.Header, w.w.Headers)\n", New: "\t\tr.Header = w.w.Headers\n", Expect: "C09.R13"},
 		{Name: "merged-returns-live-bucket", File: "memmetrics/histogram.go", Old: "func (r *RollingHDRHistogram) Merged() (*HDRHistogram, error) {\n", New: "func (r *RollingHDRHistogram) Merged() (*HDRHistogram, error) {\n\tif len(r.buckets) == 1 {\n\t\treturn r.buckets[0], nil\n\t}\n", Expect: "C09.R5"},
 		{Name: "connlimit-release-unlocked", File: "connlimit/connlimit.go", Old: "func (cl *ConnLimiter) release(token string, amount int64) {\n\tcl.mutex.Lock()\n\tdefer cl.mutex.Unlock()\n", New: "func (cl *ConnLimiter) release(token string, amount int64) {\n", Expect: "C09.R1"},
 		{Name: "rebalancer-servers-unlocked", File: "roundrobin/rebalancer.go", Old: "func (rb *Rebalancer) recordMetrics(u *url.URL, code int, latency time.Duration) {\n\trb.mtx.Lock()\n\tdefer rb.mtx.Unlock()\n", New: "func (rb *Rebalancer) recordMetrics(u *url.URL, code int, latency time.Duration) {\n", Expect: "C09.R1"},
@@ -732,6 +740,75 @@ func c09AtomicRMW(p *Prog, r *Report, rule string) int {
 			walk(c.Common().Args[1], 0)
 			r.Check(bad == nil, rule, "atomic store in "+FName(fn)+" does not write back a value derived from a load of the same word", p.InstrPos(c), "no Load -> compute -> Store on one address",
 				"the stored value is computed from an atomic load of the same address: two concurrent updates both read the old value and one is lost (use atomic.Add / CompareAndSwap, or the mutex)")
+		}
+	}
+	return n
+}
+
+// c09NoConfigHeaderAlias (R13): a header map that belongs to long-lived configuration (a field reachable from a
+// method's receiver) is never installed as the header of a request: side effects run in their own goroutines
+// and middlewares serve requests concurrently, so the later Header.Set/Add on that request writes the shared
+// map while another goroutine's transport reads it.
+func c09NoConfigHeaderAlias(p *Prog, r *Report, rule string) int {
+	n := 0
+	for _, fn := range p.ModuleFuncs() {
+		for _, b := range fn.Blocks {
+			for _, in := range b.Instrs {
+				st, ok := in.(*ssa.Store)
+				if !ok {
+					continue
+				}
+				rt, f, _, ok := fieldOf(st.Addr)
+				if !ok || rt == nil || f != "Header" || rt.Obj().Pkg() == nil || rt.Obj().Pkg().Path() != pkgHTTP || rt.Obj().Name() != "Request" {
+					continue
+				}
+				n++
+				r.Fn(FName(fn))
+				shared := false
+				var walk func(v ssa.Value, d int)
+				walk = func(v ssa.Value, d int) {
+					if d > 6 || v == nil {
+						return
+					}
+					switch x := stripConv(v).(type) {
+					case *ssa.Phi:
+						for _, e := range x.Edges {
+							walk(e, d+1)
+						}
+					case *ssa.UnOp:
+						if x.Op != token.MUL {
+							return
+						}
+						// a load through a field path: shared when the path starts at the receiver
+						a := x.X
+						for i := 0; i < 6; i++ {
+							fa, ok := a.(*ssa.FieldAddr)
+							if !ok {
+								break
+							}
+							base := stripConv(fa.X)
+							if u, ok := base.(*ssa.UnOp); ok && u.Op == token.MUL {
+								a = u.X
+								continue
+							}
+							if inner, ok := base.(*ssa.FieldAddr); ok {
+								a = inner
+								continue
+							}
+							if fn.Signature.Recv() != nil && len(fn.Params) > 0 && base == ssa.Value(fn.Params[0]) {
+								shared = true
+							}
+							if _, isFV := base.(*ssa.FreeVar); isFV {
+								shared = true
+							}
+							break
+						}
+					}
+				}
+				walk(st.Val, 0)
+				r.Check(!shared, rule, FName(fn)+": a request's header map is its own", p.InstrPos(st), "the installed header is not a map kept in the receiver's configuration",
+					"a header map stored in the receiver's (shared, long-lived) state is installed as the header of a request: every later Set/Add on that request writes the shared map, concurrently with other requests using it")
+			}
 		}
 	}
 	return n
